@@ -356,6 +356,18 @@ def register(kernel):
            gen_args="lq ra", model="(lq * ra)%R", model_name="scalar factor * value of the observable, per sample (ObsExpr.evalpt (Mul a b))",
            tactic="intros; cbv [GEN]; lra", **obsf)
 
+    # ------------------------------------------------------------------ C08: the Z magnetisation and the spin convention
+    kernel("C08", name="to_pm1", file="qucumber/observables/utils.py", func="to_pm1", vec=True, inputs=[("samples", "x", F)],
+           coq_params=[("x", "R")], result=F, thm_params=[("x", "R")], gen_args="x", model="Observables.to_pm1 ROps x",
+           model_name="Observables.to_pm1 (bit 0 -> -1, bit 1 -> +1)", imports=["Bits", "Observables"],
+           tactic="intros; cbv [GEN Observables.to_pm1 two]; tie_vec_norm; lra")
+    kernel("C08", name="sigma_z", file="qucumber/observables/pauli.py", func="SigmaZ.apply", vec=True, inputs=[("samples", "s", "BV")],
+           unused_params=["nn_state"], hole_types={"x": F},
+           atoms=[("to_pm1($x)", "(Observables.to_pm1 ROps $x)", F), ("self.absolute", "absolute", B)],
+           coq_params=[("absolute", "bool"), ("s", "bits")], result=F, thm_params=[("absolute", "bool"), ("s", "bits")], gen_args="absolute s",
+           model="sigma_z ROps absolute s", model_name="Observables.sigma_z", imports=["Bits", "Observables"],
+           tactic="intros; cbv [GEN sigma_z finish]; destruct absolute; reflexivity")
+
 
 def register_corollaries(cor):
     """property-level facts stated over SEVERAL generated kernels at once (compiled with the combined generated file)"""
